@@ -62,6 +62,10 @@ func zzEnvelope(shape int, id uint64) *Rpc {
 func H_C12_seq() {
 	L := vfParam("L", 2)
 	first := vfParam("first", -1) // optionally fixes the first shape (job splitting)
+	second := vfParam("second", -1)
+	third := vfParam("third", -1)
+	oneid := vfParam("oneid", 0) // every envelope uses stream id 1
+	lazy := vfParam("lazy", 0) // streaming handler returns at once without reading its input
 	impl := &zzImpl{}
 	impl.unary = func(ctx context.Context, in *testproto.Msg) (*testproto.Msg, error) {
 		return &testproto.Msg{Value: in.GetValue() + 1}, nil
@@ -76,6 +80,9 @@ func H_C12_seq() {
 			strReturned++
 			impl.mu.vfUnlock()
 		}()
+		if lazy == 1 {
+			return nil
+		}
 		for {
 			in := new(testproto.Msg)
 			err := stream.RecvMsg(in)
@@ -102,10 +109,18 @@ func H_C12_seq() {
 	for i := 0; i < L; i++ {
 		if i == 0 && first >= 0 {
 			shapes[i] = first
+		} else if i == 1 && second >= 0 {
+			shapes[i] = second
+		} else if i == 2 && third >= 0 {
+			shapes[i] = third
 		} else {
 			shapes[i] = vfChoice("shape", zzNumShapes)
 		}
-		ids[i] = uint64(1 + vfChoice("id", 2))
+		if oneid == 1 {
+			ids[i] = 1
+		} else {
+			ids[i] = uint64(1 + vfChoice("id", 2))
+		}
 		switch shapes[i] {
 		case 5:
 			validUnary++
